@@ -255,6 +255,11 @@ def run(ctx):
                                                            "node:retained", "node:no-convergence:revert-below-retention-floor",
                                                            "crash:pruner.")),
                     why="the real Pruner service running concurrently with stores, reverts and L1 heads on one store (Node.tla)")
+        # migration/historyprunner/migrator.go is anchored here; its check lives in the migration family (C18)
+        ctx.include("C18", options={"only": ["historypruner"]},
+                    accept=lambda k: k.startswith("historypruner-migration:") and "crash-in-restorer" not in k,
+                    why="the optional history-pruning migration: L1 head below / at / ahead of the local head, crash after every "
+                        "durable mutation, retained blocks read back")
     ctx.assumptions += [
         "a single Batch.Write is atomic and durable (C15 examines the backends)",
         "L1 heads are recorded in increasing order (L1 reorgs are C17's subject)",
